@@ -505,6 +505,20 @@ pub static WATCHDOG_SECS: AtomicU64 = AtomicU64::new(120);
 /// so that one hang does not cost a verdict per pending operation. Cleared when the next case starts.
 pub static ABORTED: AtomicBool = AtomicBool::new(false);
 pub fn aborted() -> bool { ABORTED.load(Ordering::SeqCst) }
+/// Set once a cache (with its threads) had to be left behind: its background threads may exit at any later time, which would be
+/// attributed to the cache of a later case, so the shard stops after the case that set it.
+static TAINTED: AtomicBool = AtomicBool::new(false);
+pub fn taint() { TAINTED.store(true, Ordering::SeqCst); }
+pub fn tainted() -> bool { TAINTED.load(Ordering::SeqCst) }
+
+/// Joins helper threads that call the API of the cache under test. They are never joined blindly (on a wedged cache they may never
+/// return): without a classified hang they are awaited with the logical hang test (no wall-clock verdict — a loaded machine only makes
+/// this slower); after one they get a short grace period and are left behind.
+pub fn join_helpers<T>(what: &str, handles: Vec<thread::JoinHandle<T>>) -> Option<Vec<T>> {
+    let done = if aborted() { poll_until(Duration::from_millis(500), || handles.iter().all(|h| h.is_finished())) }
+               else { wait_until(what, || handles.iter().all(|h| h.is_finished())).is_ok() };
+    if done { Some(handles.into_iter().filter_map(|h| h.join().ok()).collect()) } else { taint(); std::mem::forget(handles); None }
+}
 pub fn clear_abort() { ABORTED.store(false, Ordering::SeqCst); }
 fn abort_case() { ABORTED.store(true, Ordering::SeqCst); }
 
